@@ -165,6 +165,9 @@ def hypsB (K : Bytes) (db : DB) (t : Tape) (absent : List Bytes) : Bool :=
   | .error _ => false
   | .ok (avail, t0) =>
     Chain.nodupB (avail.map natToBytesMin) && avail.all (· > 0) &&
+    -- `setup_never_raises`: a sample of range(1, |A|), an addressable array, lists within the two-level limit
+    avail.all (· < arrayLen cfg db) && decide (arrayLen cfg db ≤ 2 ^ (cfg.idxSize * 8).toNat) &&
+    db.all (fun p => decide ((p.2.length : Int) < (cfg.B * cfg.Bp) * cfg.bp)) &&
     match encDb cfg lv K db avail (List.replicate (arrayLen cfg db) none) t0 with
     | .error _ => false
     | .ok (L, _, _) =>
